@@ -1,0 +1,41 @@
+//go:build verif
+// +build verif
+
+// Exports for the external verification harness (/verif). Compiled only with -tags verif.
+
+package leveldb
+
+import (
+	"github.com/syndtr/goleveldb/leveldb/comparer"
+)
+
+// VerifICompare applies the internal-key comparer built over ucmp.
+func VerifICompare(ucmp comparer.Comparer, a, b []byte) int {
+	return (&iComparer{ucmp}).Compare(a, b)
+}
+
+// VerifISeparator applies the internal-key Separator built over ucmp.
+func VerifISeparator(ucmp comparer.Comparer, a, b []byte) []byte {
+	return (&iComparer{ucmp}).Separator(nil, a, b)
+}
+
+// VerifISuccessor applies the internal-key Successor built over ucmp.
+func VerifISuccessor(ucmp comparer.Comparer, b []byte) []byte {
+	return (&iComparer{ucmp}).Successor(nil, b)
+}
+
+// VerifMakeIKey builds an internal key; ok is false when makeInternalKey panics.
+func VerifMakeIKey(ukey []byte, seq uint64, kt uint) (ik []byte, ok bool) {
+	defer func() {
+		if recover() != nil {
+			ik, ok = nil, false
+		}
+	}()
+	return makeInternalKey(nil, ukey, seq, keyType(kt)), true
+}
+
+// VerifParseIKey parses an internal key.
+func VerifParseIKey(ik []byte) (ukey []byte, seq uint64, kt uint, err error) {
+	u, s, k, e := parseInternalKey(ik)
+	return u, s, uint(k), e
+}
